@@ -31,13 +31,13 @@ def register(claim, na):
           "(R-ROUNDTRIP) pose-less shapes read every attribute from the pose slot collider2origin writes and refresh all of "
           "them; (R-EAGER) every call from collider methods into compiled functions with explicit signatures is accepted for "
           "the join of all values the attributes can hold after construction or update_pose with a C-contiguous pose - i.e. "
-          "'no later query raises'. Does not decide numerical equality of query results.", "DESIGN.md §4 C14")
+          "'no later query raises'; update_pose does not reassign pose-independent attributes, and state written by a support query (the hill-climbing start vertex) reaches the result only as the start hint of the search (R-QUERYSTATE). Does not decide numerical equality of query results.", "DESIGN.md §4 C14")
     claim("C15", AST + ": compaction-idiom, guard-dominates-store, force-direction and degenerate-polygon guards",
           "Decides structural necessary conditions for well-formed contact polygons: kept half-planes / points are written at "
           "the running counter so no unwritten np.empty row is returned (R-COMPACT), capacity checks precede stores "
           "(R-GUARDSTORE), the force is a scalar times contact_plane_hnf[:3] (R-FORCEDIR), fewer than 3 vertices means no "
           "intersection at all three stages and the plane is normalised after the zero-normal test and before its offset is "
-          "used (R-POLYGUARD). Does not decide that vertices lie on the plane / inside both tetrahedra, convexity, "
+          "used (R-POLYGUARD); the tetrahedron/plane pre-filter is True exactly when both tetrahedra have a vertex strictly beyond each side's tolerance (R-PLANECROSS: 16-row truth table of the function's boolean structure). Does not decide that vertices lie on the plane / inside both tetrahedra, convexity, "
           "non-negative pressure or order independence.", "DESIGN.md §4 C15")
     claim("C16", AST + " + class-attribute resolution (E1): negation pairing, tuple-order flow, cache invalidation, "
                        "sibling agreement of the two broad phases",
@@ -46,14 +46,14 @@ def register(claim, na):
           "ContactSurface receiver resolves (R-ATTR); methods that reassign mesh data reset all dependent caches "
           "(R-INVALIDATE); tree and brute-force broad phase take the bodies in the same order, bind the same triple and share "
           "the aabb_overlap predicate (R-SAMEPREDICATE); frame consistency of the hydroelastic package incl. the wrench rule taken "
-          "from adjoint_from_transform's docstring (R-FRAME: two known findings, _transform_wrenches rotates by R^T). Does not "
+          "from adjoint_from_transform's docstring (R-FRAME: two known findings, _transform_wrenches rotates by R^T); express_in stores a copy of the other body's pose, so two bodies never share one mutable pose array (R-SHAREDPOSE). Does not "
           "decide the 5% discretisation statements.", "DESIGN.md §4 C16")
-    claim("C19", "loop exit-discipline classification (engine E4) over the ast of the narrow-phase modules",
-          "Decides the exit discipline only: every loop reachable in the narrow-phase modules is CAP (counter vs bound "
+    claim("C19", "loop exit-discipline classification (engine E4) + zero-guard dominance of magnitude divisions over the ast of the narrow-phase modules",
+          "Decides the exit discipline and one finiteness clause: every loop reachable in the narrow-phase modules is CAP (counter vs bound "
           "advanced on every path; continue paths must clear a one-way flag), STRUCT, PROGRESS (non-strict non-improvement "
           "exit with the carried value updated, followed into the state-returning helper) or TOLERANCE (mpr._refine_portal: "
           "exit test evaluated every iteration, termination NOT proved); anchor loops keep the class confirmed by reading. "
-          "Does not decide the bound of 1000 support evaluations, finiteness of outputs, or which exceptions can be raised.",
+          "R-SAFEDIV: in mpr.py, the closed-form support functions and norm_vector every division by a magnitude (norm / sqrt / sum / a callee's distance - exactly 0.0 for touching or coincident placements) sits on the non-zero side of a test of that magnitude (one UNKNOWN: the fallback weights of mpr._contact_position). Does not decide the bound of 1000 support evaluations, finiteness of the GJK/EPA outputs, or which exceptions can be raised.",
           "DESIGN.md §4 C19")
     claim("C20", "abstract interpretation of array layout/dtype/ndim against numba signatures (E1) + " + AST,
           "Decides source-visible divergences between compiled and interpreted execution: every call of an explicitly typed "
@@ -69,7 +69,7 @@ def register(claim, na):
           "(R-PAR, R-COMPACT); closest points apply the weights of Y[0..k] to P[0..k] and Q[0..k] in order (R-BARY); sub-solver "
           "masks map to the right vertex bits for all masks, returned masks name the vertices the point is built from, plane "
           "tests guard their own face, Y[0..k-1] reach the k-point solver, candidates are adopted under strict < (R-BITMAP, "
-          "R-MASKPOINT, R-PLANES, R-SOLVERDISPATCH); loops have a progress/cap discipline (R-LOOP). Does not decide |a-b|=d "
+          "R-MASKPOINT, R-PLANES, R-SOLVERDISPATCH); loops have a progress/cap discipline (R-LOOP); the early 'Clipped' (no result) exit requires the new support point strictly behind the origin plane, s < 0, in addition to s^2 > |dir|^2 max_distance_squared (R-CLIPGUARD). Does not decide |a-b|=d "
           "within 1e-5 L, optimality of d, or d>0 <=> separated.", "DESIGN.md §4 C01")
     claim("C02", AST + ": Minkowski pairing, type-dispatch enumeration of the inflation (all ordered class pairs), decision-tree "
                        "equality of the two Nesterov files, loop caps",
@@ -107,8 +107,8 @@ def register(claim, na):
           "component is a non-negative multiple of the same direction component, a constant whose sign the path's tests "
           "justify, or zero, i.e. <support - centre, d> >= 0; the cone takes the candidate with the larger projection); "
           "R-MARGIN (inner support + margin * unit(d), delegation); R-AXIS; R-AABBARGS; R-EAGER at the support call sites. Does "
-          "not decide extremeness within 1e-9 L nor that the hill-climbing mesh support is independent of earlier queries (the "
-          "cached start vertex IS state written by a query; its harmlessness is a convexity argument about runtime data).",
+          "R-QUERYSTATE: state written by a support query reaches the returned value only as the start hint of the hill climb, never as the answer. Does "
+          "not decide extremeness within 1e-9 L nor that hill climbing is start-independent (a convexity argument about runtime data).",
           "DESIGN.md §4 C03")
     claim("C04", "sibling-agreement rules + coordinate-frame (E2) and length-degree (E3) abstract interpretation",
           "Decides structural necessary conditions only: each aabb() calls its own shape's function with the attributes stored "
@@ -147,7 +147,7 @@ def register(claim, na):
           "(R-TRIPLE, R-ROLE, R-ROLEAGREE) - i.e. '|p1-p2| = d' and 'points lie on the respective primitives' hold RELATIVE TO "
           "THE CALLEES; every loop of the package is CAP/STRUCT (R-HANG: 'never hang' is fully decided for this package); calls "
           "into explicitly typed helpers are accepted (R-EAGER); local-frame evaluation is frame consistent and results are "
-          "world-frame points (R-FRAME); dimensional homogeneity (R-DEGREE). Does not decide membership of arithmetically "
+          "world-frame points (R-FRAME); dimensional homogeneity (R-DEGREE); the two halves of the line-to-box case analysis are mirror images under the axis swap (R-MIRROR). Does not decide membership of arithmetically "
           "constructed leaf points within 1e-9 L, NaN-freedom, or 'never raises' beyond signature conformance.", "DESIGN.md §4 C10")
     claim("C11", "feature-enumeration completeness rules + convexity-table rule for the clamp idiom + role-flow (E6) + degree "
                  "inference (E3)",
@@ -156,7 +156,7 @@ def register(claim, na):
           "dist <= epsilon (R-FEATURES); the 'infinite line, then clamp and re-query the end point' idiom is used only against "
           "convex primitives (R-CLAMPCONVEX: known finding line_segment_to_circle); best-of blocks adopt distance and points "
           "together (R-TRIPLE); closed forms are dimensionally homogeneous (R-DEGREE: exposed the line_to_circle transcription "
-          "error, fixed). Does not decide optimality itself, nor the 20-round alternating projection of disk_to_disk.",
+          "error, fixed); the symmetric case tree of _line_to_box._case_0 stays symmetric (R-MIRROR). Does not decide optimality itself, nor the 20-round alternating projection of disk_to_disk.",
           "DESIGN.md §4 C11")
     na("C17", "volumes, positivity, partition and potentials are numerical facts about generated vertex data over continuous "
               "parameters; the only static part (combinatorics of literal tables) is too small a share of the statement to "
